@@ -2,6 +2,7 @@
 reading a context back after `setCtx` / `setCur` / `removeChild`. -/
 import AsphaltModel.Context
 import AsphaltProofs.Lemmas.Assoc
+import AsphaltProofs.Lemmas.ExitWith
 
 namespace Asphalt
 
@@ -194,6 +195,22 @@ def exitOutcome (be : BlockEnd) (isRoot : Bool) (children : List CtxId) (excs : 
       else .exitOwn e (isRoot && (match e with | .exn _ => false | _ => true))
     | .ret => if !children.isEmpty then .corruption else .exitNormal
 
+/-- Leaving the block of an open context, tearing down the stack `stk x.tds`. -/
+theorem exitWith_opened (w : World) (t : TaskId) (c : CtxId) (be : BlockEnd)
+    (stk : List Cb → List Cb) (x : Ctx) (hx : w.ctx? c = some x) (hs : x.state = .opened) :
+    exitWith w t c be stk =
+      (removeChild
+        ((w.setCtx c { (runTeardown c (w.curOf t) be (stk x.tds) { x with state := .closing, tds := [] }).1 with
+            state := .closed }).setCur t (x.token.getD Option.none)) x.parent c,
+       (runTeardown c (w.curOf t) be (stk x.tds) { x with state := .closing, tds := [] }).2.1 ++
+         [.closed, exitOutcome be x.parent.isNone x.children
+            (runTeardown c (w.curOf t) be (stk x.tds) { x with state := .closing, tds := [] }).2.2]) := by
+  have hch : (runTeardown c (w.curOf t) be (stk x.tds) { x with state := .closing, tds := [] }).1.children =
+      x.children := (runTeardown_frame c (w.curOf t) be (stk x.tds) _).2.2.1
+  simp only [exitWith, hx, hs, exitOutcome, ne_eq, not_true_eq_false, if_false]
+  rw [hch]
+  rfl
+
 theorem step_exit (w : World) (t : TaskId) (c : CtxId) (be : BlockEnd) (x : Ctx)
     (hx : w.ctx? c = some x) (hs : x.state = .opened) :
     step w (.exit t c be) =
@@ -203,10 +220,18 @@ theorem step_exit (w : World) (t : TaskId) (c : CtxId) (be : BlockEnd) (x : Ctx)
        (runTeardown c (w.curOf t) be (effStack be x.tds) { x with state := .closing, tds := [] }).2.1 ++
          [.closed, exitOutcome be x.parent.isNone x.children
             (runTeardown c (w.curOf t) be (effStack be x.tds) { x with state := .closing, tds := [] }).2.2]) := by
-  have hch : (runTeardown c (w.curOf t) be (effStack be x.tds) { x with state := .closing, tds := [] }).1.children =
-      x.children := (runTeardown_frame c (w.curOf t) be (effStack be x.tds) _).2.2.1
-  simp only [step, hx, hs, exitOutcome, ne_eq, not_true_eq_false, if_false]
-  rw [hch]
-  rfl
+  rw [step_exit_exitWith]; exact exitWith_opened w t c be _ x hx hs
+
+/-- The same for a block whose scope is cancelled during callback `k` of the teardown. -/
+theorem step_exitMid (w : World) (t : TaskId) (c : CtxId) (be : BlockEnd) (k : Nat) (x : Ctx)
+    (hx : w.ctx? c = some x) (hs : x.state = .opened) :
+    step w (.exitMid t c be k) =
+      (removeChild
+        ((w.setCtx c { (runTeardown c (w.curOf t) be (midEff be k x.tds) { x with state := .closing, tds := [] }).1 with
+            state := .closed }).setCur t (x.token.getD Option.none)) x.parent c,
+       (runTeardown c (w.curOf t) be (midEff be k x.tds) { x with state := .closing, tds := [] }).2.1 ++
+         [.closed, exitOutcome be x.parent.isNone x.children
+            (runTeardown c (w.curOf t) be (midEff be k x.tds) { x with state := .closing, tds := [] }).2.2]) := by
+  rw [step_exitMid_exitWith]; exact exitWith_opened w t c be _ x hx hs
 
 end Asphalt
